@@ -172,6 +172,7 @@ def run(ctx):
     class_level_order(ctx, prog)
     heap_orientation(ctx, prog)
     heap_exit_rule(ctx, prog, 'C12-R8')
+    sorted_rowsets_rule(ctx, prog)
     R5 = 'C12-R5'
     ctx.rule(R5, 'an absent LIMIT is not a size: the builder hands TopN / Limit a huge sentinel when the query has no LIMIT, so no '
                  'allocation in those executors may be sized by `limit` (with_capacity*, reserve, vec![_; n]) unless the amount went '
@@ -374,3 +375,28 @@ def merge_join_types(ao_b):
                 return {nm.get(str(v), str(v)) for v, tgt in tt['targets'] if tgt != tt.get('otherwise')}
         return None
     return set()
+
+
+def sorted_rowsets_rule(ctx, prog):
+    """C12-R9: what a primary-key table writes into a row-set went through the sorting memtable."""
+    from tmpl import flows_from
+    R9 = 'C12-R9'
+    ctx.rule(R9, 'the planner drops ORDER BY <primary key> on the disk engine because every row-set of a primary-key table is written in key '
+                 'order; that order is made in one place, BTreeMapMemTable::flush. So in SecondaryMemRowset<BTreeMapMemTable> every chunk '
+                 'handed to RowsetBuilder::append is the result of MemTable::flush - a chunk written as it arrived ("already sorted" fast '
+                 'path) is only ordered within itself, not against what the builder already holds')
+    sites_ = [c for c in prog.calls_matching(r'rowset_builder::RowsetBuilder::append$')
+              if 'mem_rowset::SecondaryMemRowset::<' in c.body.name and 'BTreeMapMemTable' in c.body.name]
+    ctx.floor(R9, len(sites_), 1, 'RowsetBuilder::append calls in SecondaryMemRowset<BTreeMapMemTable>')
+    for c in sites_:
+        b = c.body
+        ctx.functions_analysed.add(b.name)
+        ok = len(c.args) >= 2 and c.args[1]['k'] != 'const' and flows_from(
+            b, c.args[1]['pl']['l'], lambda k, p_, bb: k == 'call' and re.search(r'MemTable(>)?::flush$', p_.get('fn') or '') is not None, depth=12)
+        fn = b.name.split('>::', 1)[-1].split('::{')[0]
+        ctx.ob(R9, f'SecondaryMemRowset<BTreeMapMemTable>::{fn}·writes-only-what-the-memtable-sorted', ok,
+               f'{b.name} block {c.bb}: the chunk given to RowsetBuilder::append ' + ('is the result of MemTable::flush' if ok else
+                                                                                     'does not come from MemTable::flush'),
+               [site(b, c.bb)],
+               what='a primary-key table writes rows into a row-set without passing them through the sorting memtable: the row-set is no '
+                    'longer in key order, and `SELECT .. ORDER BY <pk>` (whose sort the planner removes on the disk engine) returns them unsorted')
